@@ -43,10 +43,31 @@ def run(ctx):
               (5400.123456, "UTC"), (-86400.0 * 29.5, "UTC")]
         qs = [(round(a, 6), b) for a, b in qs]
         cases.append({"id": k, "l1": l1, "l2": l2, "queries": qs, "beta": True})
-    chunks = [cases[i::16] for i in range(16) if cases[i::16]]
+    # B* twins: the same identifier, epoch and elements with another drag term, propagated right after the original in the same process
+    def cks(line):
+        return line[:68] + str(sum(int(c) if c.isdigit() else (1 if c == "-" else 0) for c in line[:68]) % 10)
+    twins = []
+    for c in cases[::5]:
+        alt = " 50000-3" if c["l1"][53:61] != " 50000-3" else " 12345-4"
+        twins.append((c["id"], {"id": len(cases) + len(twins), "l1": cks(c["l1"][:53] + alt + c["l1"][61:]), "l2": c["l2"], "queries": c["queries"][:3], "beta": False}))
+    order = []
+    tw = dict(twins)
+    for c in cases:
+        order.append(c)
+        if c["id"] in tw:
+            order.append(tw[c["id"]])
+    cases = order
+    tles = tles + [(t[1]["l1"], t[1]["l2"]) for t in twins]
+    n16 = (len(cases) + 15) // 16
+    chunks = [cases[i * n16:(i + 1) * n16] for i in range(16) if cases[i * n16:(i + 1) * n16]]      # consecutive: a twin stays next to its original
     results = ctx.harness_parallel("sgp4_trace.py", [{"repo": REPO, "cases": c} for c in chunks], procs=16, timeout=3000)
     traces = []
     laws = {"checked": 0, "failed": 0, "worst_cm": 0.0, "examples": []}
+    laws2 = {"checked": 0, "failed": 0, "examples": []}
+    for res in results:
+        for kk in ("checked", "failed"):
+            laws2[kk] += res.get("laws2", {}).get(kk, 0)
+        laws2["examples"] += res.get("laws2", {}).get("examples", [])
     for res in results:
         traces += res["traces"]
         for k in ("checked", "failed"):
@@ -91,6 +112,11 @@ def run(ctx):
     for t in clean:
         ctx.nontrivial.add(f"tle{t['id']}")
     ctx.samples.append({"tle": list(tles[0]), "trace_item": clean[0]["items"][-1] if clean and clean[0]["items"] else None})
+    ctx.clause("the state returned by the default SGP4 propagator is the reference library's state for that TLE text at that instant (|v| x 50 us)",
+               max(laws2["checked"], 1), laws2["failed"])
+    for ex in laws2["examples"][:4]:
+        ctx.violation("sgp4/reference", f"default Sgp4 differs from the reference model built from the same lines by {ex['difference_m']:.4g} m "
+                                        f"(allowed {ex['allowed_m']:.3g} m) at {ex['offset_s']} s ({ex['label']})", ex)
     # ---- law between the two code paths -----------------------------------------------------------------------------------
     ctx.clause("native Sgp4Beta agrees with the wrapped reference within 1 cm where the full near-Earth model applies", max(laws["checked"], 1), laws["failed"])
     ctx.extra["native_vs_reference"] = {"compared": laws["checked"], "worst_cm": laws["worst_cm"]}
